@@ -95,8 +95,8 @@ void TcpEngine_writePending_contract(TcpEngine *self, Session *s)
 __CPROVER_requires(IORA_TRUE && __CPROVER_is_fresh(self, sizeof(*self)) && __CPROVER_is_fresh(s, sizeof(*s)))
 __CPROVER_requires(WP_PRE_COND(self, s))
 __CPROVER_assigns(s->wq, s->wantWrite, s->tlsWantWrite, s->lastWriteProgress, s->closed, s->writeStallTimeoutId, self->_sessions.has, self->_atomicStats.bytesOut,
-                  G_written, G_errno, G_send_calls, G_sslw_calls, G_ssl_last_ret, G_close_calls, G_close_sid, G_close_why,
-                  G_ep_fd, G_ep_events, G_ep_op, G_ep_epfd, G_ep_mods, G_ep_dels)
+                  IORA_WRITE_ENV_GHOSTS, G_close_calls, G_close_sid, G_close_why,
+                  IORA_EPOLL_GHOSTS)
 /* S1 */ __CPROVER_ensures(G_close_calls == OLD(G_close_calls) ? (!s->closed && self->_sessions.has && STREAM(s, G_A))
                                           : (G_close_calls == OLD(G_close_calls) + 1 && G_close_sid == OLD(s->id) && !self->_sessions.has))
 /* SP */ __CPROVER_ensures(G_written >= OLD(G_written) && G_written <= G_A)
@@ -178,8 +178,8 @@ __CPROVER_requires(self->_sessions.has && __CPROVER_is_fresh(self->_sessions.val
 __CPROVER_requires(DS_PRE_COND(self, sr, DS_S) && !DS_S->closed && self->_config.closeOnBackpressure)
 __CPROVER_assigns(DS_S->wq, DS_S->wantWrite, DS_S->lastActivity, DS_S->lastWriteProgress, DS_S->closed, DS_S->writeStallTimeoutId,
                   self->_sessions.has, self->_atomicStats.bytesOut, self->_atomicStats.backpressureCloses,
-                  G_written, G_errno, G_send_calls, G_sslw_calls, G_ssl_last_ret, G_close_calls, G_close_sid, G_close_why,
-                  G_ep_fd, G_ep_events, G_ep_op, G_ep_epfd, G_ep_mods, G_ep_dels)
+                  IORA_WRITE_ENV_GHOSTS, G_close_calls, G_close_sid, G_close_why,
+                  IORA_EPOLL_GHOSTS)
 /* S1 */ __CPROVER_ensures(G_close_calls == OLD(G_close_calls) ? (!DS_S->closed && self->_sessions.has && STREAM(DS_S, OLD(sr->payload.hi)))
                                           : (G_close_calls == OLD(G_close_calls) + 1 && !self->_sessions.has))
 /* S3 */ __CPROVER_ensures((OLD(DS_S->tlsMode) != TlsMode_None && OLD(DS_S->tlsState) == TlsState_Handshake) ==> (G_send_calls == OLD(G_send_calls) && G_sslw_calls == OLD(G_sslw_calls) && G_written == OLD(G_written)))
